@@ -14,6 +14,7 @@ func factsMore(x *extractor) {
 	x.factsFramer()
 	x.factsForward()
 	x.factsFirewall()
+	x.factsRouting()
 }
 
 const netceptorGo = "pkg/netceptor/netceptor.go"
@@ -509,4 +510,87 @@ func (x *extractor) factsFirewall() {
 	}
 	x.set("fw_loop", loop)
 	x.set("fw_before_dispatch", before)
+}
+
+// ---------------------------------------------------------------- C06: handleRoutingUpdate
+
+func (x *extractor) factsRouting() {
+	staleEpoch, staleSeq, relay, selfFilter := "unknown", "unknown", "unknown", "unknown"
+	dedupFirst, rewrite, atomic := false, false, false
+	if fd := x.fn(netceptorGo, "Netceptor", "handleRoutingUpdate"); fd != nil {
+		body := fd.Body.List
+		// positions of the landmarks among the top-level statements
+		idx := func(pred func(string, ast.Stmt) bool) int {
+			for i, st := range body {
+				if pred(x.str(st), st) {
+					return i
+				}
+			}
+			return -1
+		}
+		iSelf := idx(func(s string, st ast.Stmt) bool {
+			is, ok := st.(*ast.IfStmt)
+			return ok && x.str(is.Cond) == "ri.NodeID == s.nodeID"
+		})
+		iLock := idx(func(s string, _ ast.Stmt) bool { return s == "s.seenUpdatesLock.Lock()" })
+		iLookup := idx(func(s string, _ ast.Stmt) bool { return s == "_, ok := s.seenUpdates[ri.UpdateID]" })
+		iDrop := idx(func(s string, st ast.Stmt) bool {
+			is, ok := st.(*ast.IfStmt)
+			return ok && x.str(is.Cond) == "ok" && strings.Contains(s, "s.seenUpdatesLock.Unlock()") && strings.Contains(s, "return")
+		})
+		iInsert := idx(func(s string, _ ast.Stmt) bool { return s == "s.seenUpdates[ri.UpdateID] = time.Now()" })
+		iUnlock := idx(func(s string, _ ast.Stmt) bool { return s == "s.seenUpdatesLock.Unlock()" })
+		iBranch := idx(func(s string, st ast.Stmt) bool {
+			is, ok := st.(*ast.IfStmt)
+			return ok && x.str(is.Cond) == "ri.SuspectedDuplicate != 0"
+		})
+		iRewrite := idx(func(s string, _ ast.Stmt) bool { return s == "ri.ForwardingNode = s.nodeID" })
+		iEncode := idx(func(s string, _ ast.Stmt) bool { return strings.Contains(s, "s.translateStructToNetwork(MsgTypeRoute, ri)") })
+		dedupFirst = iSelf >= 0 && iSelf < iLookup && iLookup < iDrop && iDrop < iBranch
+		atomic = iLock >= 0 && iLock < iLookup && iLookup < iDrop && iDrop < iInsert && iInsert < iUnlock && iUnlock < iBranch
+		rewrite = iBranch >= 0 && iBranch < iRewrite && iRewrite < iEncode
+		if len(body) > 0 {
+			relay = x.str(body[len(body)-1])
+			if iEncode < 0 || iEncode > len(body)-2 {
+				relay = "unknown:" + relay
+			}
+		}
+		if iSelf >= 0 {
+			conds := []string{"ri.NodeID == s.nodeID"}
+			for _, st := range body[iSelf].(*ast.IfStmt).Body.List {
+				if is, ok := st.(*ast.IfStmt); ok {
+					conds = append(conds, x.str(is.Cond))
+				}
+			}
+			last := body[iSelf].(*ast.IfStmt).Body.List
+			if _, ok := last[len(last)-1].(*ast.ReturnStmt); !ok {
+				conds = append(conds, "no-final-return")
+			}
+			selfFilter = strings.Join(conds, ";")
+		}
+		if iBranch >= 0 {
+			if els, ok := body[iBranch].(*ast.IfStmt).Else.(*ast.BlockStmt); ok {
+				var conds []string
+				ast.Inspect(els, func(n ast.Node) bool {
+					if is, ok := n.(*ast.IfStmt); ok && strings.Contains(x.str(is.Cond), "ni.") {
+						b := x.str(is.Body)
+						if strings.Contains(b, "s.knownNodeLock.Unlock()") && strings.Contains(b, "return") {
+							conds = append(conds, x.str(is.Cond))
+						}
+					}
+					return true
+				})
+				if len(conds) == 2 {
+					staleEpoch, staleSeq = conds[0], conds[1]
+				}
+			}
+		}
+	}
+	x.set("route_stale_epoch", staleEpoch)
+	x.set("route_stale_seq", staleSeq)
+	x.set("route_dedup_first", dedupFirst)
+	x.set("route_relay_call", relay)
+	x.set("route_self_filter", selfFilter)
+	x.set("route_forwarder_rewrite", rewrite)
+	x.set("route_seen_atomic", atomic)
 }
